@@ -177,9 +177,10 @@ def run(R):
     for mname, hook, want in (("_pause_contexts", "pause", "reverse"), ("_resume_contexts", "resume", "forward")):
         m = ro.AsyncTask.methods.get(mname)
         R.need(m is not None, "anchor vanished: AsyncTask.%s" % mname)
-        loops = [n for n in ast.walk(m.node) if isinstance(n, ast.For) and "self._contexts" in q.src(n.iter)]
-        R.need(len(loops) == 1, "idiom: %s" % mname)
-        d = loop_direction(loops[0].iter, "self._contexts")
+        loops = [n for n in ast.walk(m.node) if isinstance(n, ast.For) and any(q.attr_call(c)[1] == hook for c in q.calls(n))]
+        R.need(len(loops) == 1, "idiom: %s does not call ctx.%s() in one loop" % (mname, hook))
+        d = loop_direction(loops[0].iter, "self._contexts", m.node)
+        R.need(d is not None, "idiom: unrecognised iteration `%s` in %s" % (q.src(loops[0].iter), mname))
         R.check(d == want, "C01.CONTEXT-ORDER", m.qualname, R.site(m, loops[0]), "%s hooks run %s" % (hook, want),
                 "%s hooks run %s: nested overrides of one task restore in the wrong order and a sibling reads a leaked value" % (hook, d))
     common.blocked_all(R, ro, "C01.BLOCKED-ALL")
